@@ -40,8 +40,8 @@ class World:
     def chain(self, parameter_mode=True, **kw):
         return self.config(**kw).chain(parameter_mode=parameter_mode)
 
-    def model(self, case=None, parameter_mode=True, cfgdir=None):
-        return model.build_tasks(case or self.case, cfgdir or self.cfgdir, parameter_mode)
+    def model(self, case=None, parameter_mode=True, cfgdir=None, root_name=None):
+        return model.build_tasks(case or self.case, cfgdir or self.cfgdir, parameter_mode, root_name=root_name)
 
 
 def _ctx_desc(case, layer):
